@@ -273,7 +273,10 @@ func c14r3(r *R) {
 				e := c.Expr(ret.Results[0])
 				want := "((" + p[1] + " & p0.Op) == " + p[1] + ")"
 				want2 := "(0 != (" + p[1] + " & p0.Op))"
-				oo.Check(e == want || e == want2, "%s returns %s, want Op&%s == %s (fsnotify.%s)", p[0], e, p[1], p[1], strings.TrimPrefix(p[0], "is"))
+				// fsnotify's own Has (Event.Has / Op.Has: `o&h != 0`) on a single-bit mask is the same test
+				want3 := "(github.com/fsnotify/fsnotify.Event).Has(p0, " + p[1] + ")"
+				want4 := "(github.com/fsnotify/fsnotify.Op).Has(p0.Op, " + p[1] + ")"
+				oo.Check(e == want || e == want2 || e == want3 || e == want4, "%s returns %s, want Op&%s == %s (fsnotify.%s)", p[0], e, p[1], p[1], strings.TrimPrefix(p[0], "is"))
 			}
 		})
 	}
